@@ -51,6 +51,30 @@ def run(tier, seed, replay):
                 for vv in verdict.violations:
                     if vv["key"] == k:
                         vv["count"] = v
+    # wire level: generated client and server of collStr (readOnly / createOnly annotations) through the e2e harness
+    r4 = lib.run_tlc(sdir, "MC_Call.tla", "MC_Call.cfg", workers=8, timeout=1800)
+    if not r4.ok:
+        raise lib.Broken("Call.tla: %s violated" % r4.violated)
+    crows = sorted(set(json.loads(x) for x in r4.printed))[:50]
+    cf = os.path.join(scr.path, "calls.ndjson")
+    with open(cf, "w") as f:
+        for x in crows:
+            f.write(x + "\n")
+
+    def extra(d):
+        lib.vt_bindings(scr, d)
+        os.remove(os.path.join(d, "registry.go"))
+    e2e = lib.go_module(scr, "e2e", "v2", extra_src=extra)
+    code, out, err, wall = lib.run_bin(e2e, ["-in", cf], timeout=3000, cwd=os.path.dirname(e2e))
+    if code != 0:
+        raise lib.Broken("e2e harness failed: %s" % err[-3000:])
+    for line in out.splitlines():
+        o = json.loads(line)
+        if o["kind"] == "violation" and o["key"].startswith("C07/"):
+            verdict.add(o["key"], o["what"], o["case"])
+        elif o["kind"] == "stats":
+            totals["wire_client_calls"] = o["stats"].get("c07_client_calls", 0)
+            totals["wire_server_probes"] = o["stats"].get("c07_server_probes", 0)
     cov.update(totals)
     cov["traces_validated_against_impl"] = 0
     cov["evaluations"] = sum(totals.values())
@@ -60,6 +84,6 @@ def run(tier, seed, replay):
     code, nv = verdict.finish()
     lib.write_evidence(PROP, tier, seed, cov, [
         "no meaning is assigned to Matches on scopes containing $set / $delete (partial updates are covered end to end by C11 and by the wire-level part of C02)",
-        "the wire-level clauses (create / update / partial update through generated client and server) are exercised with C02's harness",
+        "wire level: the generated client and server of the annotated resource collStr; 11 client calls (create, batch_create, update, batch_update with every excluded field set; 7 partial updates touching excluded fields) and 20 server probes",
     ], time.time() - t0, nv)
     return code
